@@ -630,8 +630,10 @@ Theorem C01_shared_holder_decided_partial :
 Proof. exact codec_full_shared_holder. Qed.
 Print Assumptions C01_shared_holder_decided_partial.
 
-(* the statement that is NOT proved (what is missing for the shape): the decoder agreement premise of
-   the partial theorem follows from the encoder agreement, for all environments and messages *)
+(* the statement that is NOT proved (what is missing for the shape): both agreement premises of the
+   partial theorem follow from the decidable condition "every existing holder has a populated member"
+   (CodecSharedHolder.holders_have_members_b), for all environments and messages.  CRound checks
+   per case that inside the other two side conditions the agreement holds EXACTLY when that condition does *)
 Definition C01_shared_holder_full_statement : Prop :=
   forall fmt_float parse_float parse_time any_inner any_back e,
     float_text_ok fmt_float -> float_roundtrip fmt_float parse_float -> time_parse_extends parse_time ->
@@ -639,7 +641,7 @@ Definition C01_shared_holder_full_statement : Prop :=
     env_static_b (hoist_env e) = true ->
     forall fuel root m,
       rep_root_b any_inner print any_back (hoist_env e) fuel root m = true ->
-      encode fmt_float any_inner e root m = encode fmt_float any_inner (hoist_env e) root m ->
+      holders_have_members_b e root m = true ->
       exists txt J, encode fmt_float any_inner e root m = Ok txt /\ strict_parse txt = Some J /\
         (N.of_nat (jnest J) <= max_nesting ->
          exists m', decode_tree (dec_scalar parse_float parse_time) print false any_back e root J = Ok m' /\
@@ -664,6 +666,7 @@ Definition sh_tree : jvalue := Eval vm_compute in
 Example C01_shared_holder_example :
   env_shared_holder_b sh_env = true /\ env_static_b sh_env = false /\ env_static_b (hoist_env sh_env) = true /\
   rep_root_b rt_inner print None (hoist_env sh_env) 3 [82] sh_msg = true /\
+  holders_have_members_b sh_env [82] sh_msg = true /\ holders_have_members_b sh_env [82] sh_msg2 = false /\
   encode rt_fmt rt_inner sh_env [82] sh_msg = Ok sh_txt /\
   encode rt_fmt rt_inner (hoist_env sh_env) [82] sh_msg = Ok sh_txt /\
   strict_parse sh_txt = Some sh_tree /\
